@@ -43,6 +43,13 @@ def swap_xy(term: str) -> str:
     return term.replace("x", "\0").replace("y", "x").replace("\0", "y")
 
 
+#: object state the evaluated methods read (the constructor defaults relevant to the mean-reduced rate)
+STREAM_ATTRS = {
+    "BitErrorRate": {"self.threshold": 0.5},
+    "BlockErrorRate": {"self.threshold": 0.25, "self.block_size": 2, "self.reduction": "mean"},
+}
+
+
 def analyse_metric(repo: Repo, rep: Report, file: str, cname: str, fwd_atoms: Dict[str, bool]) -> int:
     ci = repo.cls(file, cname)
     n = 0
@@ -234,14 +241,22 @@ def analyse_metric(repo: Repo, rep: Report, file: str, cname: str, fwd_atoms: Di
     if E_f is None:
         rep.undecided("SIBLING", fwd, "forward: rate = count / total", "no return of the form count / total found")
         return n
+    ev = None
     for what, a, b in (("error count", E_f, E_u), ("total", T_f, T_u)):
+        if "?" not in a and "?" not in b and a != b and ev is None:
+            # the two derivations are spelt differently: decided by evaluating both methods on sample batches
+            ev = streaming_evaluated(repo, ci, err_attr, tot_attr, STREAM_ATTRS.get(cname, {}))
         if "?" in a or "?" in b:
             rep.undecided("SIBLING", fwd, f"{what}: forward vs update", "term overflow")
         elif a == b:
             rep.ok("SIBLING", fwd, f"{what}: forward == update == {' | '.join(sorted(a))}", "the streamed per-batch quantity is the one-shot quantity")
+        elif ev is not None and ev[0] is True:
+            rep.ok("SIBLING", fwd, f"{what}: forward vs update (different spellings)", ev[1])
+        elif ev is not None and ev[0] is None:
+            rep.undecided("SIBLING", upd, f"{what}: forward and update derive it differently", f"the two derivations differ as terms and could not be evaluated ({ev[1]})")
         else:
             only_f, only_u = sorted(a - b), sorted(b - a)
-            rep.violation("SIBLING", upd, f"{what}: update computes {' | '.join(only_u) or '(subset)'}", f"forward computes {' | '.join(only_f) or '(superset)'}: accumulating over update() calls no longer equals the one-shot value on the concatenated data")
+            rep.violation("SIBLING", upd, f"{what}: update computes {' | '.join(only_u) or '(subset)'}", f"forward computes {' | '.join(only_f) or '(superset)'}: accumulating over update() calls no longer equals the one-shot value on the concatenated data" + (f" ({ev[1]})" if ev is not None and ev[0] is False else ""))
         n += 1
     # symmetry of the error predicate: re-derive the count with the arguments exchanged
     ts = Terms(upd, repo, ci, opaque_methods={"_reshape_into_blocks"})
@@ -258,6 +273,120 @@ def analyse_metric(repo: Repo, rep: Report, file: str, cname: str, fwd_atoms: Di
     rep.check(bool(ok), "SYMMETRIC", upd, f"error count with arguments exchanged: {' | '.join(sorted(E_s or ()))[:200]}", "identical term: the count is symmetric in (x, y)", f"exchanging the arguments changes the count (original: {' | '.join(sorted(E_u))[:160]})")
     n += 1
     return n
+
+
+#: batches the streamed / one-shot comparison is evaluated on: (x, y) pairs of 2-D inputs with the same row length
+STREAM_BATCHES = (
+    ([[0.9, 0.1, 0.8, 0.2], [0.7, 0.6, 0.1, 0.3]], [[0.8, 0.7, 0.9, 0.1], [0.2, 0.9, 0.0, 0.9]]),
+    ([[0.2, 0.9, 0.4, 0.6], [0.1, 0.1, 0.9, 0.9], [0.6, 0.4, 0.7, 0.3]], [[0.1, 0.8, 0.7, 0.9], [0.0, 0.3, 0.8, 0.7], [0.9, 0.9, 0.2, 0.2]]),
+    ([[0.55, 0.45, 0.05, 0.95]], [[0.6, 0.4, 0.1, 0.2]]),
+    # values exactly at the decision threshold (0.5) and differences exactly equal to the block threshold (0.25)
+    ([[0.5, 0.75, 0.5, 0.0], [0.25, 0.5, 1.0, 0.5]], [[0.75, 0.5, 0.25, 0.0], [0.5, 0.5, 1.0, 0.75]]),
+)
+STREAM_COMPLEX = (
+    ([[0.9 + 0.1j, 0.2 + 0.8j], [0.7 + 0.6j, 0.1 + 0.3j]], [[0.8 + 0.7j, 0.9 + 0.9j], [0.2 + 0.9j, 0.0 + 0.2j]]),
+    ([[0.1 + 0.9j, 0.6 + 0.6j]], [[0.9 + 0.8j, 0.4 + 0.7j]]),
+)
+
+
+def streaming_evaluated(repo: Repo, ci, err_attr: str, tot_attr: str, attrs0: Dict[str, object]):
+    """update() on several batches followed by compute(), against forward() on the concatenated data, all evaluated by own
+    arithmetic over nested lists.  Returns (True, note) / (False, counter-example) / (None, reason)."""
+    from ..constfold import PySeq, Unfoldable
+    from ..frag import FragReturn, run_fragment
+
+    funcs = {f"self.{m}": fi_.node for m, fi_ in ci.methods.items() if m not in ("forward", "update", "compute", "reset", "__init__")}
+    for st in ci.module.tree.body:
+        if isinstance(st, ast.FunctionDef):
+            funcs[st.name] = st
+    fwd, upd, comp = (ci.methods[m] for m in ("forward", "update", "compute"))
+
+    def call(fi_, names, attrs):
+        try:
+            run_fragment(fi_.body, names, attrs, funcs=funcs, max_steps=60000, attrs_live=True)
+        except FragReturn as ret:
+            return ret.value
+        return None
+
+    def scalar(v):
+        while isinstance(v, list) and len(v) == 1:
+            v = v[0]
+        if isinstance(v, bool) or not isinstance(v, (int, float)):
+            raise Unfoldable(f"rate is not a number: {v!r}")
+        return float(v)
+
+    groups = [("real", STREAM_BATCHES)]
+    if any(isinstance(c_, ast.Call) and (call_name(c_) or "").split(".")[-1] == "is_complex" for c_ in ast.walk(upd.node)):
+        groups.append(("complex", STREAM_COMPLEX))
+    try:
+        for kind, batches in groups:
+            for k in range(1, len(batches) + 1):
+                attrs = dict(attrs0)
+                attrs[err_attr if err_attr.startswith("self.") else f"self.{err_attr}"] = 0
+                attrs[tot_attr if tot_attr.startswith("self.") else f"self.{tot_attr}"] = 0
+                for x, y in batches[:k]:
+                    call(upd, {"x": x, "y": y, "args": PySeq([]), "kwargs": {}}, attrs)
+                streamed = scalar(call(comp, {}, dict(attrs)))
+                X = [r for x, _ in batches[:k] for r in x]
+                Y = [r for _, y in batches[:k] for r in y]
+                oneshot = scalar(call(fwd, {"x": X, "y": Y, "args": PySeq([]), "kwargs": {}}, dict(attrs0)))
+                if abs(streamed - oneshot) > 1e-12:
+                    return False, f"{kind} batches of {[len(b[0]) for b in batches[:k]]} rows: update()+compute() gives {streamed!r}, forward() on the concatenated data gives {oneshot!r}"
+    except Unfoldable as exc:
+        return None, str(exc)
+    return True, f"update() over 1..{len(STREAM_BATCHES)} batches + compute() equals forward() on the concatenated data ({', '.join(g for g, _ in groups)} samples)"
+
+
+#: error patterns that tell `any` from `all`, the block axis from the other axes and consecutive from strided blocks
+BLOCK_PATTERNS = [[1, 1, 0, 0], [1, 0, 0, 0], [0, 0, 0, 0], [0, 1, 1, 0]]
+
+
+def blocks_evaluated(repo: Repo, ci, m: str):
+    """forward() (or update() + compute()) evaluated on words whose error pattern is BLOCK_PATTERNS: the rate must be the
+    fraction of consecutive runs of block_size elements (or of rows, for block_size None) that contain an error."""
+    from ..constfold import PySeq, Unfoldable
+    from ..frag import FragReturn, run_fragment
+
+    funcs = {f"self.{k}": fi_.node for k, fi_ in ci.methods.items() if k not in ("forward", "update", "compute", "reset", "__init__")}
+    for st in ci.module.tree.body:
+        if isinstance(st, ast.FunctionDef):
+            funcs[st.name] = st
+    bufs = list(buffers_of(ci))
+
+    def call(fi_, names, attrs):
+        try:
+            run_fragment(fi_.body, names, attrs, funcs=funcs, max_steps=60000, attrs_live=True)
+        except FragReturn as ret:
+            return ret.value
+        return None
+
+    def scalar(v):
+        while isinstance(v, list) and len(v) == 1:
+            v = v[0]
+        if isinstance(v, bool) or not isinstance(v, (int, float)):
+            raise Unfoldable(f"rate is not a number: {v!r}")
+        return float(v)
+
+    X = [[0.0] * 4 for _ in BLOCK_PATTERNS]
+    Y = [[float(e) for e in r] for r in BLOCK_PATTERNS]
+    try:
+        for bs in (2, None, 4, 1):
+            size = bs or 4
+            blocks = [r[i : i + size] for r in BLOCK_PATTERNS for i in range(0, 4, size)]
+            want = sum(1 for b in blocks if any(b)) / len(blocks)
+            attrs = {"self.threshold": 0.25, "self.block_size": bs, "self.reduction": "mean"}
+            for b_ in bufs:
+                attrs[f"self.{b_}"] = 0
+            if m == "forward":
+                got = scalar(call(ci.methods["forward"], {"x": X, "y": Y, "args": PySeq([]), "kwargs": {}}, attrs))
+            else:
+                call(ci.methods["update"], {"x": X, "y": Y, "args": PySeq([]), "kwargs": {}}, attrs)
+                got = scalar(call(ci.methods["compute"], {}, attrs))
+            if abs(got - want) > 1e-12:
+                return False, f"block_size {bs}: error pattern {BLOCK_PATTERNS} gives {got!r}; {sum(1 for b in blocks if any(b))} of its {len(blocks)} blocks of {size} consecutive elements contain an error ({want!r})"
+    except Unfoldable as exc:
+        return None, str(exc)
+    return True, "block_size 2 / None / 4 / 1: the rate is the fraction of consecutive runs of block_size elements containing an error"
 
 
 def sorted_sym(term: str) -> bool:
@@ -314,6 +443,18 @@ def rule_blocks(repo: Repo, rep: Report) -> int:
         anys = [c for c in ast.walk(f2.node) if isinstance(c, ast.Call) and isinstance(c.func, ast.Attribute) and c.func.attr in ("any", "all")]
         ok = len(anys) == 1 and anys[0].func.attr == "any" and any(k.arg == "dim" and unparse(k.value) == "-1" for k in anys[0].keywords)
         wrong_red = len(anys) == 1 and (anys[0].func.attr == "all" or any(k.arg == "dim" and unparse(k.value) not in ("-1", "2") for k in anys[0].keywords))
+        helper_calls = {who: [c for c in ast.walk(f2.node) if isinstance(c, ast.Call) and attr_chain(c.func) == "self._reshape_into_blocks" and c.args and unparse(c.args[0]) == who] for who in ("x", "y")}
+        if not (ok or wrong_red) or any(len(v) != 1 for v in helper_calls.values()):
+            # another spelling (e.g. the flags computed in a helper method): the method is evaluated against the definition
+            ev = blocks_evaluated(repo, repo.cls(BLER, "BlockErrorRate"), m)
+            if ev[0] is not None:
+                construct = f"{m}: block error rate evaluated on sample words (block_size 2 and row-as-block)"
+                if ev[0]:
+                    rep.ok("BLOCKS", f2, construct, ev[1], node=f2.node)
+                else:
+                    rep.violation("BLOCKS", f2, construct, ev[1], node=f2.node)
+                n += 3
+                continue
         rep.shape(ok, wrong_red, "BLOCKS", f2, f"block reduction: {unparse(anys[0]) if anys else '(none)'}", "a block is in error iff any of its elements differs", "block error is not `any` over the block axis", node=anys[0] if anys else f2.node)
         n += 1
         for who in ("x", "y"):
